@@ -331,13 +331,14 @@ def r_compile(ctx):
         # the unrolling stops only when no variable is left or no node is left (not when a layer happens to have nothing to expand:
         # with long arcs / filters an empty expansion list does not mean an empty diagram)
         term_c = TERMINAL[tag]
+        mvv = move_verdicts(ctx.body(adt, '_move_to_next_layer')) if tag == 'Mdd' else None
         def stop_ok(atoms, lit):
             for a in atoms:
                 if opt_is(a, lambda x: M.is_call(x, 'Problem::next_variable'), 'None'):
                     return True
                 if empty_lit(a, lambda x: self_field(x, term_c)):
                     return True
-                if tag == 'Mdd' and a[0] == 'F' and M.is_call(a[1], '_move_to_next_layer'):
+                if tag == 'Mdd' and mvv is not None and asserts_verdict(a, lambda x: M.is_call(x, '_move_to_next_layer'), mvv[0]):
                     return True
             return False
         ok, cut, bad = M.guarded(b, [finp], stop_ok)
@@ -346,8 +347,10 @@ def r_compile(ctx):
                   'the compilation can stop unrolling although a variable is left and nodes are still waiting (e.g. because the list of nodes to expand in this layer is empty): waiting nodes are taken for terminals')
         if tag == 'Mdd':
             mvb = ctx.body(adt, '_move_to_next_layer')
-            falses = [(bb_, i_) for (bb_, i_, s_) in mvb.assigns(lambda s_: s_['place']['l'] == 0 and not s_['place']['p'] and s_['rv']['k'] == 'use' and s_['rv']['op'].get('const', {}).get('bool') is False)]
-            okf = returns_value_only_if(mvb, False, lambda atoms: any(empty_lit(a, lambda x: M.is_param(x, index=2)) for a in atoms))
+            # the verdict that stops the unrolling (false, or the unit variant answered for an empty layer) is answered ONLY for an empty
+            # drained layer (move_verdicts picks it as the constant guarded by "parameter #2 is empty"; the other one must not be)
+            falses = mvv[2] if mvv else []
+            okf = mvv is not None
             filt = call_points(mvb, '_filter_with_cache', '_filter_with_dominance', '_squash_if_needed')
             for p_ in filt:
                 r_ = mvb.reach(mvb.after(p_))
@@ -1218,6 +1221,57 @@ def _foreach_over(ctx, parent, closure, child_idx):
     return r is not None and (child_idx is None or r[0] == child_idx)
 
 
+def move_verdicts(mvb):
+    """Mdd::_move_to_next_layer answers one of two constants: `true` / `false`, or the two unit variants of a private enum
+    (LayerStatus::Expandable / Exhausted). Returns (stop, go, stop_pts, go_pts): the constant answered when the drained layer is empty
+    (stop the unrolling), the other one, and the points of the assignments of each to the return place; None if the answers are not two
+    such constants."""
+    def const_of(s_):
+        rv = s_['rv']
+        if rv['k'] == 'use' and isinstance(rv['op'].get('const', {}).get('bool'), bool):
+            return ('bool', rv['op']['const']['bool'])
+        if rv['k'] == 'aggr' and rv.get('adt') and rv.get('variant') is not None and not (rv.get('ops') or []):
+            return ('variant', rv['adt'], rv['variant'])
+        return None
+    pts = {}
+    for (bb_, i_, s_) in mvb.assigns(lambda s_: s_['place']['l'] == 0 and not s_['place']['p']):
+        c_ = const_of(s_)
+        if c_ is None:
+            return None
+        pts.setdefault(c_, []).append((bb_, i_))
+    if len(pts) != 2 or len(set(k[0] for k in pts)) != 1:
+        return None
+    # the stop verdict: the one assigned on a path that asserts "the layer vector (parameter #2) is empty"
+    stop = None
+    for c_, ps_ in pts.items():
+        ok_, _, _ = M.guarded(mvb, ps_, lambda atoms, lit: any(empty_lit(a, lambda x: M.is_param(x, index=2)) for a in atoms))
+        if ok_:
+            stop = c_ if stop is None else 'both'
+    if stop is None or stop == 'both':
+        return None
+    go = [c_ for c_ in pts if c_ != stop][0]
+    return (stop, go, pts[stop], pts[go])
+
+
+def asserts_verdict(a, call_pred, verdict):
+    """the guard atom `a` asserts that the result of the call selected by call_pred IS `verdict` (a ('bool', v) or ('variant', adt, name))"""
+    is_v = lambda t: (verdict[0] == 'variant' and isinstance(t, tuple) and t[:1] == ('aggr',) and t[1] == verdict[1] and t[2] == verdict[2]) or \
+        (verdict[0] == 'bool' and M.is_const(t, verdict[1]))
+    if verdict[0] == 'bool' and a[0] in ('T', 'F') and call_pred(a[1]):
+        return (a[0] == 'T') == verdict[1]
+    if a[0] == 'in' and call_pred(a[1]) and verdict[0] == 'variant':
+        return a[2] == frozenset([verdict[2]])
+    if a[0] == 'cmp' and a[3] == frozenset('='):
+        return (call_pred(a[1]) and is_v(a[2])) or (call_pred(a[2]) and is_v(a[1]))
+    if a[0] == 'T' and M.is_call(a[1], 'eq') and len(a[1][2]) == 2:
+        x, y = a[1][2]
+        return (call_pred(x) and is_v(y)) or (call_pred(y) and is_v(x))
+    if a[0] == 'F' and M.is_call(a[1], 'ne') and len(a[1][2]) == 2:
+        x, y = a[1][2]
+        return (call_pred(x) and is_v(y)) or (call_pred(y) and is_v(x))
+    return False
+
+
 # ------------------------------------------------------------------------------------------------
 def r_filters(ctx):
     for tag, adt in DIAGRAMS:
@@ -1238,8 +1292,9 @@ def r_filters(ctx):
             sarg = mv.origin.operand(sq[0][1]['args'][2], sqp)
             if tag == 'Mdd':
                 good = M.is_param(sarg, index=2)
-                # every path returning true went through the squash
-                trues = [(bb, i) for (bb, i, s) in mv.assigns(lambda s: s['place']['l'] == 0 and not s['place']['p'] and s['rv']['k'] == 'use' and s['rv']['op'].get('const', {}).get('bool') is True)]
+                # every path answering "go on, expand" went through the squash
+                mvv_ = move_verdicts(mv)
+                trues = mvv_[3] if mvv_ else []
                 r0 = mv.reach([(0, 0)], avoid=[sqp])
                 good = good and bool(trues) and not any(p in r0 for p in trues)
             else:
